@@ -156,7 +156,7 @@ def judge(case, wd, sh, how=None):
         if case.get('ordinary') and D['iso']:
             sub = dict(case, queries=[m for m in case['queries'] if m[0] in case['ordinary']])
             sub.pop('query_text', None)
-            run2 = pipeline.run_inprocess(sub, wd, tag='iso', serial=True)
+            run2 = pipeline.run_forked(sub, wd, tag='iso', serial=True)
             sh.count('isolation-comparisons')
             if run2.error:
                 viol.append(('abort:%s@%s' % (run2.error['type'], run2.error['frame']), 'run on the ordinary queries alone aborted: %s' % run2.error['msg']))
@@ -185,7 +185,7 @@ def run_shard(spec):
         rng = rng_for('C07', spec['seed'], spec['shard'], i)
         case = make_case(rng)
         case['gen'] = [spec['seed'], spec['shard'], i]
-        judge(case, spec['workdir'], sh)
+        core.isolated(judge, sh, case, spec['workdir'])
     return sh
 
 
